@@ -1,6 +1,6 @@
-import Drv.C05
+import Aergo.Model.ChainDriver
 
-/-! Model driver for C07: the same session step function as C05 (`C05Drv.step`); the two properties share
-the model `Aergo.Chain` and the harness `c05`. -/
+/-! Model driver for C07: `model-c07 < ops > out`. The two properties share the model `Aergo.Chain`, the harness
+machinery (harness/c05lib) and this session step function (`C05Drv.step`). -/
 
 def main : IO UInt32 := Aergo.DriverLib.run (none : Option Aergo.Chain.Node) C05Drv.step
